@@ -1,5 +1,6 @@
 import AasVerif.Model.Descr
 import AasVerif.Model.Lex
+import AasVerif.Model.Indent
 import AasVerif.Gen.Descr
 namespace AasVerif.Drive.C20
 open AasVerif AasVerif.Descr AasVerif.Lex
@@ -48,7 +49,7 @@ def lexer : String → Option (Text → String)
   | _ => none
 
 /-- `w <wrapper> <text>` → `ok:<text>` / `crash:<site>`; `lex <lang> <text>` → token list;
-`splitlines <text>` → list of lines. -/
+`splitlines <text>` → list of lines; `indent <indention> <text>` → `indent_but_first_line`. -/
 def handle : List String → Option String
   | ["w", name, t] => do
     let f ← wrapper name
@@ -61,6 +62,10 @@ def handle : List String → Option String
   | ["splitlines", t] => do
     let t ← Text.dec t
     some (Text.encList (splitLines t))
+  | ["indent", ind, t] => do
+    let ind ← Text.dec ind
+    let t ← Text.dec t
+    some (Text.enc (Indent.indentButFirst Gen.Descr.indentSplit Gen.Descr.indentJoin ind t))
   | _ => none
 
 end AasVerif.Drive.C20
